@@ -112,6 +112,7 @@ func (c *Ctx) hashTopology() *hashTopo {
 		}
 	}
 	// channels and wait groups created in the spawner
+	wgField := map[string]bool{}
 	for _, b := range t.fn.Blocks {
 		for _, in := range b.Instrs {
 			switch x := in.(type) {
@@ -124,6 +125,19 @@ func (c *Ctx) hashTopology() *hashTopo {
 					wi := &wgInfo{alloc: x}
 					wi.alias, _ = t.aliases(x)
 					t.wgs = append(t.wgs, wi)
+				}
+			case *ssa.FieldAddr:
+				// a WaitGroup that is a field of a shared state object made here
+				if isNamed(x.Type(), "sync", "WaitGroup") && !wgField[fmt.Sprintf("%s#%d", x.X.Type().String(), x.Field)] {
+					if _, made := x.X.(*ssa.Alloc); made {
+						wgField[fmt.Sprintf("%s#%d", x.X.Type().String(), x.Field)] = true
+						wi := &wgInfo{alloc: x}
+						wi.alias = map[ssa.Value]bool{x: true}
+						for _, peer := range t.fieldPeers(x) {
+							wi.alias[peer] = true
+						}
+						t.wgs = append(t.wgs, wi)
+					}
 				}
 			}
 		}
@@ -218,6 +232,13 @@ func (t *hashTopo) aliases(root ssa.Value) (map[ssa.Value]bool, map[ssa.Value]bo
 		v := work[len(work)-1]
 		work = work[:len(work)-1]
 		isCell := cells[v] && !vals[v]
+		// a cell that is a field of a struct shared between the goroutines (a pool / state object): every access to that field
+		// of that struct type in the topology's functions names the same cell
+		if fa, ok := v.(*ssa.FieldAddr); ok && isCell {
+			for _, peer := range t.fieldPeers(fa) {
+				push(peer, true)
+			}
+		}
 		for _, ref := range valueReferrers(v) {
 			switch r := ref.(type) {
 			case *ssa.Store:
@@ -250,6 +271,33 @@ func (t *hashTopo) aliases(root ssa.Value) (map[ssa.Value]bool, map[ssa.Value]bo
 		}
 	}
 	return vals, cells
+}
+
+// fieldPeers: the FieldAddr instructions, in the spawner and in every function it starts as a goroutine, that address the same
+// field of the same struct type as fa.
+func (t *hashTopo) fieldPeers(fa *ssa.FieldAddr) []*ssa.FieldAddr {
+	key := func(x *ssa.FieldAddr) string {
+		pt, ok := x.X.Type().Underlying().(*types.Pointer)
+		if !ok {
+			return ""
+		}
+		return fmt.Sprintf("%s#%d", pt.Elem().String(), x.Field)
+	}
+	want := key(fa)
+	if want == "" {
+		return nil
+	}
+	var out []*ssa.FieldAddr
+	for f := range t.procs {
+		for _, b := range f.Blocks {
+			for _, in := range b.Instrs {
+				if x, ok := in.(*ssa.FieldAddr); ok && x != fa && key(x) == want {
+					out = append(out, x)
+				}
+			}
+		}
+	}
+	return out
 }
 
 func (t *hashTopo) collectChanSites(ci *chanInfo) {
@@ -1762,6 +1810,26 @@ func lessIsWholeElement(f *ssa.Function, recv, pi, pj ssa.Value) (string, string
 	return vUndecided, "arguments of " + cn + " are not recognised as the two elements"
 }
 
+// sizeArithmetic: the value is computed from len/cap results and constants only.
+func sizeArithmetic(v ssa.Value, depth int) bool {
+	if depth > 4 {
+		return false
+	}
+	switch x := v.(type) {
+	case *ssa.Const:
+		return true
+	case *ssa.Call:
+		if bi, ok := x.Call.Value.(*ssa.Builtin); ok && (bi.Name() == "len" || bi.Name() == "cap") {
+			return true
+		}
+	case *ssa.BinOp:
+		return sizeArithmetic(x.X, depth+1) && sizeArithmetic(x.Y, depth+1)
+	case *ssa.Convert:
+		return sizeArithmetic(x.X, depth+1)
+	}
+	return false
+}
+
 func ruleHS2(c *Ctx) *rule {
 	r := &rule{ID: "HS2", Engine: "E3+E5", Floor: 4,
 		Statement: "each hashed item carries the SHA-256 of the entire content of the file opened on the job string and that job string itself, unchanged, and both reach the accumulated element",
@@ -1815,6 +1883,9 @@ func ruleHS2(c *Ctx) *rule {
 				}
 				if bt, ok := bo.Type().Underlying().(*types.Basic); !ok || bt.Info()&types.IsInteger == 0 {
 					continue
+				}
+				if sizeArithmetic(bo, 0) {
+					continue // len(a)+len(b): a capacity, not content
 				}
 				fs := c.newSlicer()
 				fs.depth = 0
